@@ -1,3 +1,5 @@
+import PyrollModel.Gen.C07Hooks
+
 /-
   Failure — model of hook evaluation with failures (C07).
 
@@ -17,6 +19,14 @@
   C07 theorems and are compared with the harness' own observations: `hitLimit`, `sawCycle`, `reading`/`reentered`.
   Wrapper implementations (generator protocol) are not modelled here (C01 models them); the C07 oracle exercises
   them on the real code.
+
+  SOURCE TIE (T): three parts of `Hook.__get__` / `HookFunction.__call__` are not written down here but CONSUMED from
+  `PyrollModel/Gen/C07Hooks.lean`, which `driver/translate/hooks_skeleton.py` regenerates from `pyroll/core/hooks.py` on
+  every run of `./check C07`:
+    `Gen.C07.Hooks.getChecks`      → `post`   (which outcome of `get_result` is converted into which exception, in order),
+    `Gen.C07.Hooks.getStoreAfter`  → `stored` (how many of these checks have passed when the value is written to `__cache__`),
+    `Gen.C07.Hooks.callDiscardInFinally`, `callDiscardGuard` → `unmark` (the mark is discarded also when the call ends in an
+                                      exception; a nested, cycled call leaves the mark of the outer one).
 -/
 
 namespace Failure
@@ -194,12 +204,55 @@ inductive Task where
   | body (f i : Nat) (cyc : Bool) (acc : Int) (b : Body)  -- rest of the body of `f` running on `i`
   deriving Repr
 
-/-- what `Hook.__get__` does with the outcome of `get_result` (before storing) -/
-def post : Res → Res
-  | .exc .recursionError => .exc .attributeError
-  | .exc e => .exc e
-  | .val .none => .exc .attributeError
-  | .val v => if allFinite v then .val v else .exc .valueError
+/-- the exception classes `Hook.__get__` names -/
+def excOfName : String → Option Exc
+  | "AttributeError" => some .attributeError
+  | "ValueError" => some .valueError
+  | "RecursionError" => some .recursionError
+  | "StopIteration" => some .stopIteration
+  | _ => none
+
+/-- one entry (condition, exception raised) of the GENERATED list of checks applied to the outcome so far: an outcome
+    that already is an exception passes the later `if` checks untouched -/
+def applyCheck (c : String × String) (r : Res) : Res :=
+  match excOfName c.2 with
+  | none => r
+  | some e =>
+    if c.1 == "except RecursionError" then
+      match r with
+      | .exc .recursionError => .exc e
+      | r => r
+    else if c.1 == "is None" then
+      match r with
+      | .val .none => .exc e
+      | r => r
+    else if c.1 == "not _all_finite" then
+      match r with
+      | .val v => if allFinite v then .val v else .exc e
+      | r => r
+    else r
+
+def postWith (cs : List (String × String)) (r : Res) : Res := cs.foldl (fun r c => applyCheck c r) r
+
+/-- what `Hook.__get__` does with the outcome of `get_result`: the checks of the GENERATED list, in source order -/
+def post (r : Res) : Res := postWith Gen.C07.Hooks.getChecks r
+
+/-- the outcome as far as it is known at the statement `instance.__cache__[name] = result`: the checks that precede the
+    store in the source (GENERATED count) have been made; an exception among them means the store is not reached -/
+def stored (r : Res) : Res := postWith (Gen.C07.Hooks.getChecks.take Gen.C07.Hooks.getStoreAfter) r
+
+/-- the end of `HookFunction.__call__`: the mark of the call is discarded - unless the call was a cycled one and the
+    source guards the discard with `if not cycle` - provided the discard is reached: always when it sits in the
+    `finally` clause, otherwise only when no exception escapes (`StopIteration` is caught by the `except` clause) -/
+def unmark (st1 : St) (f i : Nat) (cyc : Bool) (r : Res) : St :=
+  let reached := Gen.C07.Hooks.callDiscardInFinally ||
+    (match r with
+     | .exc .stopIteration => true
+     | .exc _ => false
+     | .val _ => true)
+  if reached then
+    (if cyc && Gen.C07.Hooks.callDiscardGuard == "unless cycle" then st1 else st1.setMark f i false)
+  else st1
 
 /-- the state after `__get__` finished: stored only if all checks passed -/
 def store (st : St) (i h : Nat) : Res → St
@@ -216,12 +269,12 @@ def eval (P : Prog) : Nat → St → Task → Res × St
       | some v => (.val v, st)
       | none =>
         let (r, st1) := eval P n (st.enter i h) (.chain i h (P.chain h))
-        (post r, store (st1.setReading i h (st.reading i h)) i h (post r))
+        (post r, store (st1.setReading i h (st.reading i h)) i h (stored r))
   | _ + 1, st, .chain _ _ [] => (.val .none, st)
   | n + 1, st, .chain i h (f :: fs) =>
     let cyc := st.marks f i
     let (r, st1) := eval P n (st.setMark f i true) (.body f i cyc 0 (P.body f))
-    let st2 := if cyc then st1 else st1.setMark f i false        -- finally
+    let st2 := unmark st1 f i cyc r                               -- finally
     match r with
     | .exc .stopIteration => eval P n st2 (.chain i h fs)         -- `except StopIteration as e: result = e.value`
     | .exc e => (.exc e, st2)
